@@ -547,6 +547,9 @@ func (h *Session) Ping6(srcAddr Addr, dstAddr Addr, timeout time.Duration) (err 
 	icmpTable.Unlock()
 
 	if err = h.ICMP6SendEchoRequest(srcAddr, dstAddr, id, seq); err != nil {
+		icmpTable.Lock()
+		delete(icmpTable.table, id) // the request was not sent: do not leave the waiter behind
+		icmpTable.Unlock()
 		return err
 	}
 
@@ -586,6 +589,9 @@ func (h *Session) ping(srcAddr Addr, dstAddr Addr, timeout time.Duration) (err e
 	icmpTable.Unlock()
 
 	if err = h.ICMP4SendEchoRequest(srcAddr, dstAddr, id, seq); err != nil {
+		icmpTable.Lock()
+		delete(icmpTable.table, id) // the request was not sent: do not leave the waiter behind
+		icmpTable.Unlock()
 		return err
 	}
 
